@@ -6,6 +6,8 @@ def run(ctx):
     accept.rule_stable_unsat(ctx, 'skeptical')
     from . import splits
     splits.rule_split_contents(ctx)
+    from . import invariance
+    invariance.rule_component_traversal(ctx)
     cli.rule_dispatch(ctx, 'skeptical')
     accept.rule_membership_answers(ctx, 'skeptical')
     accept.rule_list_quantifiers(ctx, 'skeptical')
